@@ -37,14 +37,14 @@ def cases_for(res, rng):
     nrand = 6000 if quick else 60000
     for i in range(nrand):
         K = random_structure(rng, 6)
-        cases.append((K, F.rand_ctl(rng, rng.choice([2, 3, 3, 4])), ('text', 'obj', 'short', 'obj')[i % 4]))
+        cases.append((K, F.rand_ctl(rng, rng.choice([2, 3, 3, 4])), ('text', 'obj', 'short', 'dag')[i % 4]))
     # scale: larger structures, deeper formulas, wide n-ary operators
     for i in range(400 if quick else 4000):
         K = big_structure(rng, 7, 14)
         t = F.rand_ctl(rng, rng.choice([4, 5, 6]))
         if i % 5 == 0:
             t = (rng.choice(['and', 'or']),) + tuple(F.rand_ctl(rng, 2) for _ in range(rng.choice([5, 6, 8])))
-        cases.append((K, t, ('text', 'obj', 'short', 'obj')[i % 4]))
+        cases.append((K, t, ('text', 'obj', 'short', 'dag')[i % 4]))
     # scale: very long chains and rings (depth of the reachability / SCC traversals)
     from common import KS
     for n in ((1100,) if quick else (1100, 2500)):
